@@ -111,7 +111,10 @@ def anchorFilter(match: Match[str], _, d: Def) -> str:
 def apiOptionFilter(match: Match[str], *_) -> str:
     if not options.isSafeModeNz():
         value = utils.replaceInline(match[2], Expand(macros=True))
+        callback = options.callback
         options.setOption(match[1], value)
+        # A reset element restores the option defaults, it does not take away the callback of the render call in progress.
+        options.callback = callback
     return ''
 
 
